@@ -120,7 +120,40 @@ def mk_pow(base, exp):
 CMP_FLIP = {'Lt': 'Gt', 'LtE': 'GtE', 'Gt': 'Lt', 'GtE': 'LtE', 'Eq': 'Eq', 'NotEq': 'NotEq'}
 
 
+REPO_SIGS = {}       # callable name (last component) -> list of parameter names (without self); filled by core.Repo
+_EXT_SIG_CACHE = {}
+EXT_ROOTS = {'np': 'numpy', 'numpy': 'numpy', 'scipy': 'scipy', 'pd': 'pandas', 'plt': 'matplotlib.pyplot',
+             'datetime': 'datetime', 'os': 'os', 'functools': 'functools'}
+
+
+def _ext_params(d):
+    """Parameter names of a third-party callable given by its dotted source name, or None."""
+    if d in _EXT_SIG_CACHE:
+        return _EXT_SIG_CACHE[d]
+    out = None
+    root = d.split('.')[0]
+    if root in EXT_ROOTS:
+        try:
+            from . import extapi
+            import inspect
+            obj, err = extapi.resolve(EXT_ROOTS[root] + d[len(root):])
+            if err is None and callable(obj):
+                sig = inspect.signature(obj)
+                ps = list(sig.parameters.values())
+                if not any(p.kind in (p.VAR_POSITIONAL, p.POSITIONAL_ONLY) for p in ps):
+                    out = [p.name for p in ps if p.kind == p.POSITIONAL_OR_KEYWORD]
+        except Exception:
+            out = None
+    _EXT_SIG_CACHE[d] = out
+    return out
+
+
 def mk_cmp(op, l, r):
+    # len(x) == 0  ->  not x   (emptiness of a sized container)
+    if op in ('Eq', 'NotEq'):
+        for a, b in ((l, r), (r, l)):
+            if b == ('num', 0) and isinstance(a, tuple) and len(a) == 4 and a[0] == 'call' and a[1] == 'len' and len(a[2]) == 1 and not a[3]:
+                return ('not', a[2][0]) if op == 'Eq' else ('truth', a[2][0])
     if op in CMP_FLIP and (op in ('Gt', 'GtE') or (op in ('Eq', 'NotEq') and _key(l) > _key(r))):
         op, l, r = CMP_FLIP[op], r, l
     return ('cmp', op, l, r)
@@ -219,6 +252,13 @@ class Normalizer(object):
             return mk_pow(l, r)
         if op in ('BitAnd', 'BitOr', 'BitXor'):
             return (op, tuple(sorted([l, r], key=_key)))
+        if op == 'Mod' and isinstance(l, tuple) and l and l[0] == 'const' and isinstance(l[1], str) and '%' in l[1]:
+            # 'a%db' % x  ->  'a{}b'.format(x)
+            import re as _re
+            tpl = _re.sub(r'%[sd]', '{}', l[1])
+            if '%' not in tpl:
+                args = tuple(r[1:]) if (isinstance(r, tuple) and r and r[0] == 'tuple') else (r,)
+                return ('call', ('attr', ('const', tpl), 'format'), args, ())
         return (op, l, r)
 
     def n_UnaryOp(self, e):
@@ -254,11 +294,35 @@ class Normalizer(object):
 
     def n_Call(self, e):
         d = dotted(e.func)
+        # a local alias of a dotted callable (f = a.b.c ; f(x)) stands for that callable
+        if isinstance(e.func, ast.Name) and self.resolver is not None and e.func.id not in self.env:
+            r = self.resolver(e.func)
+            inner = getattr(r, 'expr', r)
+            if r is not None and isinstance(inner, ast.Attribute) and dotted(inner):
+                d = dotted(inner)
+                e = ast.Call(func=inner, args=e.args, keywords=e.keywords)
         name = canon_func(d) if d else None
-        args = [self.n(a) for a in e.args]
-        kws = tuple(sorted((k.arg or '**', self.n(k.value)) for k in e.keywords))
+        # one spelling for positional / keyword arguments of callables whose signature is known
+        params = None
+        if d and e.args and not any(isinstance(a, ast.Starred) for a in e.args):
+            last = d.split('.')[-1]
+            if last in REPO_SIGS and (('.' not in d) or d.split('.')[0] in ('FlowCal', 'self', 'cls') or d.split('.')[0] not in MODULE_ROOTS):
+                params = REPO_SIGS[last]
+            elif d.split('.')[0] in EXT_ROOTS and d.split('.')[0] not in self.env:
+                params = _ext_params(d)
+        pos_args = list(e.args)
+        extra_kw = []
+        if params is not None and len(pos_args) <= len(params) and not (set(params[:len(pos_args)]) & {k.arg for k in e.keywords}):
+            extra_kw = [(params[i], self.n(a)) for i, a in enumerate(pos_args)]
+            pos_args = []
+        args = [self.n(a) for a in pos_args]
+        kws = tuple(sorted([(k.arg or '**', self.n(k.value)) for k in e.keywords] + extra_kw))
         if d in self.transparent and len(e.args) == 1 and not [k for k in e.keywords if k.arg != 'dtype']:
-            return args[0]
+            return self.n(e.args[0])
+        if extra_kw and name in (POW_FUNCS | {'abs', 'absolute', 'fabs', 'sqrt', 'multiply', 'add', 'divide', 'true_divide', 'subtract',
+                                               'less', 'greater', 'less_equal', 'greater_equal', 'logical_and', 'logical_or'}):
+            args = [v for _, v in extra_kw]
+            kws = tuple(sorted((k.arg or '**', self.n(k.value)) for k in e.keywords))
         if name in POW_FUNCS and len(args) == 2 and not kws:
             return mk_pow(args[0], args[1])
         if name in ('abs', 'absolute', 'fabs') and len(args) == 1:
@@ -416,7 +480,8 @@ def make_resolver(cfg, rd, at_node, stop=()):
         # in-place modification between def and use makes the value differ: refuse to inline
         for n in cfg.nodes:
             if nm in rd.mods[n.id] and n.id != d.id:
-                return None
+                if cfg.reaches_avoiding(d, n, []) and cfg.reaches_avoiding(n, _at, []):
+                    return None
         return _Rebased(v, cfg, rd, d, stop)
     return resolver
 
